@@ -1,4 +1,5 @@
 import LachesisVerif.Props.C10
+import LachesisVerif.Proofs.OrdererFinal
 /-!
 # C01 — Order independence
 
@@ -7,48 +8,46 @@ each epoch, each in any parents-first order, accept every event and emit identic
 (same Atropos and same cheater list for every frame) and the same epoch transitions. This holds when
 validators that create forks hold strictly less than one third of the total weight."
 
-Status: PARTIAL proof.
+Status: PARTIAL proof (one epoch, `(frame, Atropos)` sequences).
 
-Proved (`C01_election_order_independent`): for one valid history `N` (event numbering fixed once,
-independently of the processing orders) with accepted frames and forkers below one third, two runs of
-the election model for the same frame — different validator-set records, different forkless-cause
-oracles, different root tables, different feeding orders, as long as each oracle answers the graph
-forkless cause of `N`, each table lists the roots of `N`, and each feed is closed (every root is
-fed after the previous-frame roots it forkless-causes; any parents-first arrival order and any
-frame-ascending complete order is closed) — that both return an Atropos return the same frame and
-the same Atropos. Derived from L2, L4, `atropos_unique` and `C10_single_election_partial`.
+Proved (`C01_order_independent_partial`): let `N` be a valid history (`Valid`: what the event checkers
+guarantee; `FramesAccepted`: every claimed frame obeys the frame rule) whose forking validators hold
+less than one third of the weight (`BFT`). Two instances of the implementation-level model
+`Model.Orderer` (kernels regenerated from abft/), each started by `initial` and each processing *all*
+events of `N` by `process` in its own parents-first order (`PFFrom`), both accept every event (no
+wrong-frame rejection, none of the five election errors — in particular not "all decided no", by
+L6), emit the same `(frame, Atropos)` sequence and end with the same last decided frame.
+The proof is L5 (`Proofs/Orderer*.lean`, stated in `Props/C10.lean` as `L5_process_invariant`,
+`L5_run_invariant`): after every `process` call the roots table is exactly the graph roots of the
+processed events, the blocks emitted so far carry the frames 1, 2, … and the Atropos of the rules,
+the open election decides frame `ldf + 1`, stores exactly the votes and decisions of the rules for
+the known roots of later frames and has decided everything decidable from them; plus L2, L4, L6 and
+`atropos_unique`.
 
-Proved (`C01_election_same_result`): moreover, if one closed feed makes the election return an
-Atropos, every closed feed containing the same roots of later frames — in any order, through other
-oracles for the same graph — returns the same Atropos (neither nothing nor an error).
+Hypotheses of `C01_order_independent_partial` other than the property's own (`hvalid`, `hframes`,
+`hbft`, the two parents-first orders) — these are what keeps the name `_partial`:
+* `hobs₁/₂` — each instance's forkless-cause oracle answers the graph relation `N.FC` on the event
+  numbers of `N`, whatever its own indexing order (C05 proves it for the vector index; the numbering
+  of events by positions of one fixed history `N` is the abstraction of event ids);
+* `hvals₁/₂` — each validator record is the canonical one (ids `0 … n-1` in canonical order with the
+  weights of `N`, total ≤ 2^31-1; C12);
+* `hbound` — accepted frames are below 2^31 (the model's `frame + 1` must not wrap in `idx.Frame`);
+* `hseal₁/₂` — the application never seals the epoch: the statement covers one epoch.
+No longer assumed (derived from L5/L6 since the previous version): `BlocksFromElections`,
+`OpenElection`, `FramesConsecutive`, the "not all decided no" part of "accept every event", and
+"the roots table returns the graph roots" (formerly part of `OraclesAgree`).
 
-Proved (`C01_order_independent_partial`): the corollary for block sequences. The `(frame, Atropos)`
-sequences emitted by two instances are identical (same length, same entries), under these explicit,
-named hypotheses that are NOT derived here:
-* `OraclesAgree` (per instance) — the instance's forkless-cause index answers `N.FC` whatever its
-  indexing order (this is C05), and its root table returns exactly the roots of `N` (C33 + C04);
-  its validator set is the canonical one with total weight ≤ 2^31-1 (C12);
-* `FramesAccepted` — the frames under which the events were accepted obey the frame rule (C04);
-* `BlocksFromElections` (per instance) — every emitted block `(f, a)` is what one election for frame
-  `f`, run from `reset` over some closed feed, returned (L5 of DESIGN §5: the Orderer restarts the
-  election after every decision and re-feeds the known roots);
-* `OpenElection` (per instance) — the election for the first frame without a block has been fed, in
-  a closed order, every root of later frames in the instance's table and has returned nothing (L5
-  again, for the election that is open when all events have been processed; it also excludes the
-  "all decided no" error, i.e. the part of "accept every event" that needs L6);
-* `FramesConsecutive` (per instance) — blocks carry the frames 1, 2, 3, … (C02, proved there at
-  model level).
-(`C01_blocks_equal_of_length` is the same without `OpenElection` but with equal lengths assumed.)
+Also proved: `C01_election_order_independent`, `C01_election_same_result` (one election, any two
+closed feeds: same Atropos).
 
-Not proved: L5 itself (the two hypotheses above); "accept every event" (C04 + L6: not all subjects
-are decided no); equality of the cheater lists (C03/C06: cheaters are a function of the Atropos'
-ancestry, so they follow from equal Atropoi); epoch transitions (sealing is a function of the decided
-block, C09). The `cons` correspondence stream checks all of it on the real code: 2–3 instances, each
-with its own random parents-first order, must emit identical blocks, cheaters and epoch switches,
-equal to the order-free reference.
+Not proved: equality of the cheater lists (C03/C06: cheaters are a function of the Atropos'
+ancestry, so they follow from equal Atropoi), epoch transitions / several epochs (sealing is a
+function of the decided block, C09), restarts (C08). The `cons` correspondence stream checks all of
+it on the real code: 2–3 instances, each with its own random parents-first order, must emit identical
+blocks, cheaters and epoch switches, equal to the order-free reference.
 -/
 namespace C01
-open Model.Pos Model.Election ElectionRules VecProofs ElectionRefine
+open Model.Pos Model.Election Model.Orderer ElectionRules VecProofs ElectionRefine OrdererProofs
 
 /-- Two elections for the same frame over the same graph — different oracles, different feeds —
     that both return an Atropos return the same one. -/
@@ -70,59 +69,6 @@ theorem C01_election_order_independent (N : Net) (f : Nat)
   have := N.atroposUnique_of_slotUnique S₁.accepted S₁.slots f _ _ g₁.2 g₂.2
   exact Prod.ext (g₁.1.trans g₂.1.symm) this
 
-/-- a consensus instance as far as C01 is concerned: its validator record, its two oracles and the
-    `(frame, Atropos)` sequence it emitted -/
-structure Instance where
-  vals : Vals
-  observe : Nat → Nat → Bool
-  frameRoots : Nat → List Root
-  blocks : List (Nat × Nat)
-
-/-- hypothesis (C05, C33 + C04, C12): the instance's oracles are those of the graph `N` -/
-structure OraclesAgree (N : Net) (I : Instance) : Prop where
-  vals : ValsOK I.vals N.nVals N.w
-  obs : ∀ a b, I.observe a b = true ↔ N.FC a b
-  roots : ∀ g r, r ∈ I.frameRoots g ↔ (r.frame = g ∧ N.IsRoot r.id g ∧ r.validator = N.creator r.id)
-  nodup : ∀ g, (I.frameRoots g).Nodup
-
-/-- hypothesis (L5): every emitted block is the result of one election run from `reset` -/
-def BlocksFromElections (I : Instance) : Prop :=
-  ∀ b ∈ I.blocks, b.1 < 4294967296 ∧ ∃ rs el', FeedClosed I.observe I.frameRoots b.1 [] rs ∧
-    runRoots I.observe I.frameRoots (reset I.vals b.1) rs = .ok (el', some b)
-
-/-- hypothesis (C02): blocks carry the frames 1, 2, 3, … -/
-def FramesConsecutive (I : Instance) : Prop := ∀ i (h : i < I.blocks.length), (I.blocks[i]).1 = i + 1
-
-/-- block sequences of equal length are equal -/
-theorem C01_blocks_equal_of_length (N : Net) (I₁ I₂ : Instance)
-    (hvalid : Valid N.nVals N.h) (hframes : N.FramesAccepted) (hbft : N.BFT)
-    (horacles₁ : OraclesAgree N I₁) (horacles₂ : OraclesAgree N I₂)
-    (hL5₁ : BlocksFromElections I₁) (hL5₂ : BlocksFromElections I₂)
-    (hcons₁ : FramesConsecutive I₁) (hcons₂ : FramesConsecutive I₂)
-    (hlen : I₁.blocks.length = I₂.blocks.length) : I₁.blocks = I₂.blocks := by
-  have setup : ∀ (I : Instance), OraclesAgree N I → ∀ f, f < 4294967296 → Setup N I.vals f I.observe I.frameRoots :=
-    fun I o f hf =>
-      { vals := o.vals, obs := o.obs, roots := o.roots, nodup := o.nodup
-        creators := fun e he => (valid_ev hvalid e he).creator_lt
-        slots := N.slotUnique_of_BFT hvalid hframes hbft, accepted := hframes, fbound := hf }
-  apply List.ext_getElem hlen
-  intro i h1 h2
-  obtain ⟨hb₁, rs₁, el₁, fc₁, r₁⟩ := hL5₁ _ (List.getElem_mem h1)
-  obtain ⟨hb₂, rs₂, el₂, fc₂, r₂⟩ := hL5₂ _ (List.getElem_mem h2)
-  have e₁ := hcons₁ i h1
-  have e₂ := hcons₂ i h2
-  rw [e₁] at hb₁ fc₁ r₁
-  rw [e₂] at hb₂ fc₂ r₂
-  exact C01_election_order_independent N (i + 1) _ _ _ _ _ _ (setup I₁ horacles₁ _ hb₁) (setup I₂ horacles₂ _ hb₂)
-    rs₁ rs₂ fc₁ fc₂ el₁ el₂ _ _ r₁ r₂
-
-/-- hypothesis (L5, open election): the election for the first frame without a block was fed every
-    root of later frames of the instance's table, in a closed order, and returned nothing -/
-def OpenElection (I : Instance) : Prop :=
-  I.blocks.length + 1 < 4294967296 ∧ ∃ rs el', FeedClosed I.observe I.frameRoots (I.blocks.length + 1) [] rs ∧
-    (∀ g r, r ∈ I.frameRoots g → I.blocks.length + 1 < g → r ∈ rs) ∧
-    runRoots I.observe I.frameRoots (reset I.vals (I.blocks.length + 1)) rs = .ok (el', none)
-
 /-- One election, any two closed feeds with the same later-frame roots: same Atropos. -/
 theorem C01_election_same_result (N : Net) (f : Nat) (vals₁ vals₂ : Vals)
     (observe₁ observe₂ : Nat → Nat → Bool) (frameRoots₁ frameRoots₂ : Nat → List Root)
@@ -134,70 +80,32 @@ theorem C01_election_same_result (N : Net) (f : Nat) (vals₁ vals₂ : Vals)
   C10.C10_single_election_same_result N f vals₁ vals₂ observe₁ observe₂ frameRoots₁ frameRoots₂ S₁ S₂ rs₁ rs₂
     hfc₁ hfc₂ hsub el₁ b h₁
 
-/-- C01 for block sequences, with everything that is not derived as an explicit hypothesis -/
-theorem C01_order_independent_partial (N : Net) (I₁ I₂ : Instance)
+/-- C01 for the block sequences of one epoch; see the module doc for the hypotheses that are not the
+    property's own -/
+theorem C01_order_independent_partial (N : Net) (vals₁ vals₂ : Vals) (env₁ env₂ : Env) (ep₁ ep₂ : Nat)
+    (ids₁ ids₂ : List Nat)
     (hvalid : Valid N.nVals N.h) (hframes : N.FramesAccepted) (hbft : N.BFT)
-    (horacles₁ : OraclesAgree N I₁) (horacles₂ : OraclesAgree N I₂)
-    (hL5₁ : BlocksFromElections I₁) (hL5₂ : BlocksFromElections I₂)
-    (hopen₁ : OpenElection I₁) (hopen₂ : OpenElection I₂)
-    (hcons₁ : FramesConsecutive I₁) (hcons₂ : FramesConsecutive I₂) : I₁.blocks = I₂.blocks := by
-  have setup : ∀ (I : Instance), OraclesAgree N I → ∀ f, f < 4294967296 → Setup N I.vals f I.observe I.frameRoots :=
-    fun I o f hf =>
-      { vals := o.vals, obs := o.obs, roots := o.roots, nodup := o.nodup
-        creators := fun e he => (valid_ev hvalid e he).creator_lt
-        slots := N.slotUnique_of_BFT hvalid hframes hbft, accepted := hframes, fbound := hf }
-  -- an instance with fewer blocks would have decided its open election
-  have key : ∀ (I J : Instance), OraclesAgree N I → OraclesAgree N J → BlocksFromElections J → OpenElection I →
-      FramesConsecutive J → ¬ I.blocks.length < J.blocks.length := by
-    intro I J oI oJ hJ ⟨hb, rs, el', fc, hall, hrun⟩ hcons hlt
-    have hfr := hcons _ hlt
-    obtain ⟨_, rsJ, elJ, fcJ, runJ⟩ := hJ _ (List.getElem_mem hlt)
-    rw [hfr] at fcJ runJ
-    obtain ⟨el₂, h₂⟩ := C01_election_same_result N (I.blocks.length + 1) J.vals I.vals J.observe I.observe
-      J.frameRoots I.frameRoots (setup J oJ _ hb) (setup I oI _ hb) rsJ rs fcJ fc
-      (fun r hr hfr => hall r.frame r ((oI.roots _ r).2 ((oJ.roots _ r).1 (FeedClosed.mem fcJ r hr))) hfr)
-      elJ _ runJ
-    rw [hrun] at h₂
-    cases h₂
-  have hlen : I₁.blocks.length = I₂.blocks.length := by
-    have a := key I₁ I₂ horacles₁ horacles₂ hL5₂ hopen₁ hcons₂
-    have b := key I₂ I₁ horacles₂ horacles₁ hL5₁ hopen₂ hcons₁
-    omega
-  exact C01_blocks_equal_of_length N I₁ I₂ hvalid hframes hbft horacles₁ horacles₂ hL5₁ hL5₂ hcons₁ hcons₂ hlen
+    (horder₁ : PFFrom N [] ids₁) (horder₂ : PFFrom N [] ids₂)
+    (hall₁ : ∀ e, e < N.h.length → e ∈ ids₁) (hall₂ : ∀ e, e < N.h.length → e ∈ ids₂)
+    (hobs₁ : ∀ a b, env₁.observe a b = true ↔ N.FC a b) (hobs₂ : ∀ a b, env₂.observe a b = true ↔ N.FC a b)
+    (hvals₁ : ValsOK vals₁ N.nVals N.w) (hvals₂ : ValsOK vals₂ N.nVals N.w) (hbound : FrameBound N)
+    (hseal₁ : ∀ ep f, env₁.sealAt ep f = none) (hseal₂ : ∀ ep f, env₂.sealAt ep f = none) :
+    ∃ s₁ s₂ ds₁ ds₂, runIds N env₁ ids₁ (initial ep₁ vals₁) [] = some (s₁, ds₁) ∧
+      runIds N env₂ ids₂ (initial ep₂ vals₂) [] = some (s₂, ds₂) ∧
+      ds₁.map blk = ds₂.map blk ∧ s₁.ldf = s₂.ldf :=
+  order_independent ⟨hvalid, hframes, hbft, hbound, hvals₁, hobs₁, hseal₁⟩
+    ⟨hvalid, hframes, hbft, hbound, hvals₂, hobs₂, hseal₂⟩ ep₁ ep₂ ids₁ ids₂ horder₁ horder₂ hall₁ hall₂
 
-/-- non-vacuity (`Proofs/ElectionExample.lean`: one validator, three chained events in frames 1, 2, 3):
-    an instance with computable oracles that has emitted the block `(1, 0)` satisfies every hypothesis
-    of `C01_order_independent_partial` -/
-def exInstance : Instance :=
-  ⟨ElectionExample.vals, ElectionExample.observe, ElectionExample.frameRoots, [(1, 0)]⟩
-
-example : Valid ElectionExample.net.nVals ElectionExample.net.h ∧ ElectionExample.net.FramesAccepted ∧
-    ElectionExample.net.BFT ∧ OraclesAgree ElectionExample.net exInstance ∧ BlocksFromElections exInstance ∧
-    FramesConsecutive exInstance ∧ OpenElection exInstance := by
-  have S := ElectionExample.setup 1 (by decide)
-  refine ⟨ElectionExample.valid, ElectionExample.framesAccepted, ElectionExample.bft,
-    ⟨S.vals, S.obs, S.roots, S.nodup⟩, ?_, ?_, ?_⟩
-  · intro b hb
-    have : b = (1, 0) := by simpa [exInstance] using hb
-    subst this
-    obtain ⟨el', h⟩ := ElectionExample.run1
-    exact ⟨by decide, ElectionExample.feed1, el', ElectionExample.feed1_closed, h⟩
-  · intro i h
-    have : i = 0 := by simp [exInstance] at h; omega
-    subst this; rfl
-  · obtain ⟨el', h⟩ := ElectionExample.run2
-    refine ⟨by decide, ElectionExample.feed2, el', ElectionExample.feed2_closed, ?_, h⟩
-    intro g r hr hg
-    have hg2 : 2 < g := hg
-    have h1 := ((S.roots g r).1 hr)
-    obtain ⟨h3, h4⟩ := (ElectionExample.isRoot_iff r.id g).1 h1.2.1
-    have hv : r.validator = 0 := by rw [h1.2.2, ElectionExample.creator_zero]
-    have : r = ⟨2, 3, 0⟩ := by
-      cases r
-      simp only at h1 h3 h4 hv
-      simp only [Root.mk.injEq]
-      omega
-    subst this
-    exact List.mem_cons_self
+/-- non-vacuity (`Proofs/OrdererFinal.lean`, `Example`): one validator, three chained events in frames
+    1, 2, 3, computable oracles: all hypotheses hold and the model emits the block `(1, 0)` -/
+example : Ctx ElectionExample.net ElectionExample.vals Example.env ∧ PFFrom ElectionExample.net [] [0, 1, 2] ∧
+    (∀ e, e < ElectionExample.net.h.length → e ∈ [0, 1, 2]) ∧
+    ∃ s, runIds ElectionExample.net Example.env [0, 1, 2] (initial 1 ElectionExample.vals) [] =
+      some (s, [⟨1, 1, 0, false⟩]) := by
+  refine ⟨Example.ctx, Example.pf, ?_, Example.run⟩
+  intro e he
+  have : e < 3 := he
+  have : e = 0 ∨ e = 1 ∨ e = 2 := by omega
+  rcases this with rfl | rfl | rfl <;> simp
 
 end C01
